@@ -28,6 +28,9 @@ TECH = {
  'C19': 'RAW/DICT typestate of the datagram value with short-circuit facts, handler coverage, branch-polarity reachability',
  'C20': 'comparison normaliser with branch polarity, call-graph reach of reset paths, slice abstract domain (oldest-prefix / newest-suffix)',
 }
+SIDE = '; side-of-test reachability (the refusing / selecting side of each decisive test is computed from the normalised comparison and must never complete normally / must hold the action), no-fall-through exits'
+for _p in ('C01', 'C03', 'C04', 'C05', 'C06', 'C07', 'C08', 'C10', 'C11', 'C12', 'C13', 'C14', 'C15', 'C16', 'C18', 'C19'):
+    TECH[_p] += SIDE
 ids = [json.loads(l)['id'] for l in open('/verif/properties.jsonl')]
 checks = []
 for pid in ids:
